@@ -7,9 +7,11 @@ import (
 	"encoding/json"
 	"fmt"
 	"os"
+	"os/exec"
 	"runtime"
 	"runtime/debug"
 	"strconv"
+	"strings"
 	"testing"
 	"time"
 )
@@ -40,6 +42,9 @@ func TestMain(m *testing.M) {
 		fmt.Printf("no check registered for %s\n", prop)
 		os.Exit(3)
 	}
+	if os.Getenv("VERIF_SUPERVISED") == "" && os.Getenv("VERIF_NO_SUPERVISOR") == "" && !isRacePass() {
+		os.Exit(superviseCheck(prop))
+	}
 	c := newCheckCtx(prop)
 	if c.tier == "replay" {
 		// replay: case lists are functions of (tier, seed) only, so re-running the recorded tier with the recorded seed
@@ -56,7 +61,73 @@ func TestMain(m *testing.M) {
 		}
 	}
 	code := c.run(fn)
+	if m := os.Getenv("VERIF_DONE_MARKER"); m != "" {
+		_ = os.WriteFile(m, []byte(fmt.Sprint(code)), 0o644)
+	}
 	os.Exit(code)
+}
+
+// superviseCheck runs the check in a child process of the same binary. The library's event loop is a process-wide
+// goroutine: a panic or fault there (or in any goroutine the harness does not own) kills the process before a verdict
+// can be printed. A check process that dies without having reached its verdict is reported as a violation of the
+// property whose workload was running, with the crash output as the witness.
+func superviseCheck(prop string) int {
+	work := os.Getenv("VERIF_WORK")
+	if work == "" {
+		work = "/verif/.work"
+	}
+	_ = os.MkdirAll(work, 0o755)
+	marker := fmt.Sprintf("%s/done.%s.%d", work, prop, os.Getpid())
+	errPath := fmt.Sprintf("%s/stderr.%s.%d", work, prop, os.Getpid())
+	_ = os.Remove(marker)
+	ef, err := os.Create(errPath)
+	if err != nil {
+		return 3
+	}
+	defer os.Remove(errPath)
+	defer os.Remove(marker)
+	cmd := exec.Command(os.Args[0], os.Args[1:]...)
+	cmd.Env = append(os.Environ(), "VERIF_SUPERVISED=1", "VERIF_DONE_MARKER="+marker, "GOTRACEBACK=all")
+	cmd.Stdout = os.Stdout
+	cmd.Stderr = ef
+	cmd.Stdin = nil
+	runErr := cmd.Run()
+	ef.Close()
+	stderr, _ := os.ReadFile(errPath)
+	if data, err := os.ReadFile(marker); err == nil {
+		// the check reached its verdict; relay what it wrote to stderr and its exit code
+		os.Stderr.Write(stderr)
+		code, _ := strconv.Atoi(string(data))
+		return code
+	}
+	// died before the verdict
+	tail := string(stderr)
+	if len(tail) > 24000 {
+		tail = tail[:12000] + "\n…\n" + tail[len(tail)-12000:]
+	}
+	os.Stderr.WriteString(truncate(string(stderr), 6000))
+	c := newCheckCtx(prop)
+	c.rule = "the check process died before reaching its verdict"
+	c.eval(1)
+	c.nontrivial("crash")
+	c.nontrivial("crash-output")
+	c.sample("process death of the check itself")
+	c.violation("process-died", map[string]interface{}{"exit": fmt.Sprint(runErr), "stderr": tail},
+		"the process running the %s workload died before reaching a verdict (%v): %s", prop, runErr, truncate(firstPanicLine(string(stderr)), 400))
+	c.wall = time.Since(c.start).Seconds()
+	return c.finish()
+}
+
+func firstPanicLine(s string) string {
+	for _, l := range strings.Split(s, "\n") {
+		if strings.HasPrefix(l, "panic:") || strings.HasPrefix(l, "fatal error:") || strings.Contains(l, "unexpected fault address") || strings.HasPrefix(l, "SIG") {
+			return l
+		}
+	}
+	if len(s) > 300 {
+		return s[len(s)-300:]
+	}
+	return s
 }
 
 func envInt(name string, def int64) int64 {
